@@ -119,6 +119,21 @@ impl Drop for Repo {
     }
 }
 
+/// A user-level git configuration whose `core.excludesFile` ignores `*.globalign` (editor
+/// backups, .DS_Store in real life): path of the configuration file, created once.
+pub fn global_excludes_config() -> std::path::PathBuf {
+    let root = std::env::var("VERIF_ROOT").unwrap_or_else(|_| "/verif".into());
+    let cfgdir = Path::new(&root).join(".cache").join("gitcfg");
+    let cfg = cfgdir.join("gitconfig");
+    static CFG_ONCE: std::sync::Once = std::sync::Once::new();
+    CFG_ONCE.call_once(|| {
+        let _ = std::fs::create_dir_all(&cfgdir);
+        let _ = std::fs::write(cfgdir.join("ignore"), "*.globalign\n");
+        let _ = std::fs::write(&cfg, format!("[core]\n\texcludesFile = {}\n", cfgdir.join("ignore").display()));
+    });
+    cfg
+}
+
 pub fn git_env(cmd: &mut Command) {
     cmd.env_clear()
         .env("PATH", crate::proc::BASE_PATH)
